@@ -1,6 +1,6 @@
 (* Props/C03.v — property C03: every catalogued stream/function round-trips and is found by its S/F numbers. *)
 From SG Require Import Base.Prelude Base.Kinds Spec.E5 Model.Secs2 Model.Denote Model.Secs2Wf Model.Sfdl Model.Functions Gen.DataItems Gen.Catalogue.
-From SG Require Import Proofs.CatalogueProofs.
+From SG Require Import Proofs.CatalogueProofs Proofs.CatalogueFacts.
 Open Scope N_scope.
 
 (* The catalogue regenerated from the source: 134 functions; no two share stream and function; every
